@@ -184,7 +184,10 @@ func (w *Watcher) handle(event fsnotify.Event) {
 		return
 	}
 
+	// stop what is still running for an earlier event, then make the runner
+	// usable again: Cancel alone leaves it cancelled for good
 	w.r.Cancel()
+	w.r.Reset()
 	logrus.Debugf("running task \"%s\" for watcher \"%s\"", w.task.Name, w.name)
 
 	t := *w.task
